@@ -679,6 +679,27 @@ func c16HasNewline(v interface{}) bool {
 	return false
 }
 
+// c16NoNewline: a deep copy with "\n" in string values replaced.
+func c16NoNewline(v interface{}) interface{} {
+	switch x := v.(type) {
+	case map[string]interface{}:
+		m := make(map[string]interface{}, len(x))
+		for k, e := range x {
+			m[k] = c16NoNewline(e)
+		}
+		return m
+	case []interface{}:
+		l := make([]interface{}, len(x))
+		for i, e := range x {
+			l[i] = c16NoNewline(e)
+		}
+		return l
+	case string:
+		return strings.ReplaceAll(x, "\n", "|")
+	}
+	return v
+}
+
 func c16MaxWidth(v interface{}) int {
 	w := 0
 	switch x := v.(type) {
@@ -932,9 +953,15 @@ func c16MapCase(c *c16Ctx, r *Rng, o xOpts, m map[string]interface{}, root strin
 		c.add(fmt.Sprintf("CX (XEnc %s %s %s %s %s)", o.coq(), r.c16CoqValShuffled(v), c16CoqRoot(root), coqBool(acc), out.xout()),
 			fmt.Sprintf("Xml on variant %d", vi), out.text(), nontrivial)
 	}
-	if !c16HasNewline(m) {
+	{
+		// XmlIndent("", "") writes the items with "\n" between them; with every "\n" inside a value replaced
+		// first (another Map of the same shape), removing the "\n" bytes leaves the items' compact bytes
 		vi := r.Intn(len(variants))
 		v := variants[vi]
+		if c16HasNewline(v) {
+			run.count("CXI term on the Map with newlines in values replaced by '|'")
+			v = c16NoNewline(v).(map[string]interface{})
+		}
 		f := func(mv mxj.Map) ([]byte, error) { return mv.XmlIndent("", "", ra...) }
 		acc, _ := accept(f, v)
 		var out c16Out
@@ -942,8 +969,6 @@ func c16MapCase(c *c16Ctx, r *Rng, o xOpts, m map[string]interface{}, root strin
 		out.B = bytes.ReplaceAll(out.B, []byte("\n"), nil)
 		c.add(fmt.Sprintf("CXI %s %s %s %s %s", o.coq(), r.c16CoqValShuffled(v), c16CoqRoot(root), coqBool(acc), out.xout()),
 			fmt.Sprintf("XmlIndent(\"\",\"\") without the newlines, variant %d", vi), out.text(), nontrivial)
-	} else {
-		run.count("newline in a value: no CXI term")
 	}
 	if r.chance(0.35) {
 		c.add(fmt.Sprintf("CPerm %s %s %s %s", o.coq(), r.c16CoqValShuffled(variants[1]), r.c16CoqValShuffled(variants[2]), c16CoqRoot(root)),
